@@ -74,6 +74,7 @@ type LogLine struct {
 	OK      bool // the output was a well-formed complete listing and exit status 0
 	Lenient bool // exit status 0 but the output is malformed or empty: a reader may reject it or take its well-formed lines
 	Exit    int
+	Dir     string // "A": the working directory, "B": the second directory (another module)
 }
 
 func ParseLog(line string) (ll LogLine, err error) {
@@ -93,6 +94,8 @@ func ParseLog(line string) (ll LogLine, err error) {
 			ll.Lenient = v == "1"
 		case "exit":
 			ll.Exit, err = strconv.Atoi(v)
+		case "dir":
+			ll.Dir = v
 		case "args":
 			ll.Args = v
 		case "printed":
